@@ -541,6 +541,21 @@ Theorem C02_mysql_variant_no_check :
   forall v from to, mv_check v = false -> t_checks to <> [] -> mysql_table_attr_diff_v v from to = None.
 Proof. exact mysql_no_check_error. Qed.
 
+(** 6f. History through the desired graph.  defaultCharset / defaultCollate write what they found
+    into the attributes of the desired column.  Asked again about the same graph, the same
+    differ sees the completed pair and answers the same (completion is idempotent) ... *)
+Theorem C02_mysql_fill_idempotent_except :
+  forall v p, fill_pair v (fill_pair v p) = fill_pair v p.
+Proof. exact fill_pair_idempotent. Qed.
+
+(** ... but "the answer does not depend on which differ saw the graph before" is FALSE: a lone
+    charset utf8mb4 completed by a 5.7 server (utf8mb4_general_ci) is not what an 8.0 server
+    makes of it (utf8mb4_0900_ai_ci).  Reproduced on the Go code (history stage, pass 3b; known
+    finding C02-mysql-differ-writes-server-defaults-into-desired-graph). *)
+Theorem C02_mysql_fill_other_server_refuted :
+  exists v v' p, fill_pair v' (fill_pair v p) <> fill_pair v' p.
+Proof. exists w_v57, w_v80, ([117;116;102;56;109;98;52]%N, []). exact fill_pair_other_server. Qed.
+
 (** * Non-vacuity: concrete inputs (vm_compute) *)
 Definition x_a : column := mkColumn [97]%N 2 [105;110;116]%N false None None None.
 Definition x_b : column := mkColumn [98]%N 3 [116;101;120;116]%N true (Some (DLit [39;120;39]%N)) None None.
@@ -712,3 +727,5 @@ Print Assumptions C02_mysql_variant_fill.
 Print Assumptions C02_mysql_variant_local.
 Print Assumptions C02_mysql_variant_default.
 Print Assumptions C02_mysql_variant_no_check.
+Print Assumptions C02_mysql_fill_idempotent_except.
+Print Assumptions C02_mysql_fill_other_server_refuted.
